@@ -936,8 +936,17 @@ fn e2e_case() -> impl Strategy<Value = E2eCase> {
             // the second receiver is far away: a surface report decoded against the wrong receiver lands in another zone
             refs.push(((lat + 7.0).clamp(-75.0, 75.0), wrap180(p.lon + dlon)));
         }
+        // addresses of one family: all bits shared but a few (low nibble, middle byte, high byte), so that a state keyed
+        // by part of the address mixes the aircraft up
+        let base = aircraft[0].icao & 0xfffff0;
+        let mode = (base >> 4) % 3;
         for (i, a) in aircraft.iter_mut().enumerate() {
-            a.icao = (a.icao & 0xfffff0) | i as u32;
+            let i = i as u32;
+            a.icao = match mode {
+                0 => base | i,
+                1 => (base ^ (i << 8)) | 1,
+                _ => ((base ^ (i << 16)) | 2) & 0xffffff,
+            };
         }
         // --update-position tells jet1090 that its receivers move: every receiver that heard a message then takes over
         // the reference of the first one (by design). With two receivers hundreds of kilometres apart that option
